@@ -127,7 +127,8 @@ PROPS = {
                     "Non-blocking readers assume nbio delivers no data callback after CloseWithError (A1, property C03). With ReadLimit = 0 "
                     "nothing bounds the retained bytes (an oversized Content-Length body is cached whole before OnBody rejects it). The body "
                     "bound is proved for the model's bodyHeld counter, which is proved to be the sum of the body events since the last "
-                    "complete event along every chain (c08_body_held_is_event_sum, c08_body_bound_events: after every Parse call), and for the "
+                    "complete event along every chain (c08_body_held_is_event_sum, c08_body_bound_events: after every Parse call; c08_body_bound_every_prefix: after "
+                    "the k first callbacks for every k, whatever the outcome of the chain, errors included), and for the "
                     "BodyReader model; that the real BodyReader.left equals the model's counter is sampled through held=. Framing theorems are about the validation functions on the recorded field values; that an accepted "
                     "stream matches the line grammar is checked by c08-framing-rejected / c08-line-endings, not proved. A bare LF inside a "
                     "request target or version token is rejected by the processor verdicts, which are inputs of the model",
